@@ -18,7 +18,8 @@ import (
 // as a Coq term of type Model.schema, so the two cannot drift.
 type Schema struct {
 	Kind   string // bool num i64 u64 str bytes barr u256 time struct slice arr map iface barrx
-	RegKey string // barrx: field key in the registered type settings ("" = none: the default key "data")
+	RegKey string // barrx / coded bytes: field key in the registered type settings ("" = none: the default key "data")
+	Coded  bool   // bytes: []byte has registered type settings with an object code in this case (object form)
 	NK     string // I8 I16 I32 U8 U16 U32
 	N      int    // barr / arr length
 	Ptr    bool   // struct behind a pointer
@@ -181,6 +182,18 @@ func (s *Schema) register(api *serix.API, seen map[*Schema]bool) {
 		for _, f := range s.Fields {
 			f.S.register(api, seen)
 		}
+	case "bytes":
+		if s.Coded {
+			var code any = uint32(s.Code)
+			if s.CodeU8 {
+				code = uint8(s.Code)
+			}
+			ts := serix.TypeSettings{}.WithObjectType(code)
+			if s.RegKey != "" {
+				ts = ts.WithFieldKey(s.RegKey)
+			}
+			_ = api.RegisterTypeSettings([]byte(nil), ts) // one registration per case: every []byte of the case is coded
+		}
 	case "barrx":
 		if s.Code >= 0 {
 			var code any = uint32(s.Code)
@@ -258,6 +271,13 @@ func (s *Schema) coqCode(withCode bool) string {
 	case "str":
 		return "SString"
 	case "bytes":
+		if s.Coded {
+			key := s.RegKey
+			if key == "" {
+				key = "data"
+			}
+			return "(SBytesO " + vx.N(uint64(s.Code)) + " " + coqStr(key) + ")"
+		}
 		return "SBytes"
 	case "barr":
 		return "(SByteArr " + vx.Nat(s.N) + ")"
@@ -287,6 +307,9 @@ func (s *Schema) coqCode(withCode bool) string {
 			if f.flat() {
 				// the field key is unused; the type settings (object code) of a plain embedded struct are not consulted
 				return `(""%string, FInline, ` + f.S.coqCode(f.Inline) + ")"
+			}
+			if f.S.Kind == "bytes" && f.S.Coded && f.TagKey != "" {
+				return "(" + coqStr(f.Key()) + ", " + m + ", (SBytesO " + vx.N(uint64(f.S.Code)) + " " + coqStr(f.TagKey) + "))"
 			}
 			if f.S.Kind == "barrx" && !f.S.Ptr && f.S.Code >= 0 && f.TagKey != "" {
 				// a by-value array in a struct field: the field's type settings are merged over the registered ones, so
